@@ -19,8 +19,10 @@ import (
 	"sync"
 	"time"
 
+	"github.com/gorilla/websocket"
 	grpcbridge "github.com/renbou/grpcbridge"
 	"github.com/renbou/grpcbridge/bridgedesc"
+	"github.com/renbou/grpcbridge/bridgelog"
 	"github.com/renbou/grpcbridge/grpcadapter"
 	"github.com/renbou/grpcbridge/routing"
 	"github.com/renbou/grpcbridge/webbridge"
@@ -31,6 +33,7 @@ import (
 	"google.golang.org/protobuf/proto"
 	"google.golang.org/protobuf/reflect/protoregistry"
 	"google.golang.org/protobuf/types/known/emptypb"
+	"google.golang.org/protobuf/types/known/structpb"
 )
 
 type Area struct{}
@@ -39,6 +42,8 @@ func (Area) Name() string { return "c18race" }
 
 func (Area) Gen(r *rand.Rand, tier string, emit func(string)) {
 	emit("race straggler-http")
+	emit("race wsburst 0")
+	emit("race wsburst 1")
 	n := 2
 	if tier == "thorough" {
 		n = 12
@@ -127,6 +132,8 @@ func (Area) Exec(input string) string {
 	switch f[1] {
 	case "straggler-http":
 		stragglerHTTP()
+	case "wsburst":
+		wsBurst(f[2] == "1")
 	case "mixed":
 		var seed int64
 		var n int
@@ -147,6 +154,134 @@ func (Area) Exec(input string) string {
 		return "OK nt b=" + f[1]
 	}
 	return "VIOL race " + strings.Join(reps, ";")
+}
+
+// ---------- WebSocket burst: pipelined client messages on both WebSocket transports ----------
+
+// burstConn buffers writes while hold is set and sends them in ONE write on release, so that several
+// WebSocket frames are already in the bridge's socket buffer when its read loop handles the first one.
+type burstConn struct {
+	net.Conn
+	mu   sync.Mutex
+	hold bool
+	buf  []byte
+}
+
+func (c *burstConn) Write(b []byte) (int, error) {
+	c.mu.Lock()
+	if c.hold {
+		c.buf = append(c.buf, b...)
+		c.mu.Unlock()
+		return len(b), nil
+	}
+	c.mu.Unlock()
+	return c.Conn.Write(b)
+}
+
+func (c *burstConn) release() {
+	c.mu.Lock()
+	b := c.buf
+	c.buf, c.hold = nil, false
+	c.mu.Unlock()
+	_, _ = c.Conn.Write(b)
+}
+
+type bidiRouter struct{ t *bridgedesc.Target }
+
+func (r bidiRouter) RouteHTTP(*http.Request) (grpcadapter.ClientConn, routing.HTTPRoute, error) {
+	svc := &r.t.Services[0]
+	m := &bridgedesc.Method{RPCName: "/t.S/B", Input: bridgedesc.ConcreteMessage[structpb.Struct](), Output: bridgedesc.ConcreteMessage[structpb.Struct](), ClientStreaming: true, ServerStreaming: true}
+	return echoConn{}, routing.HTTPRoute{Target: r.t, Service: svc, Method: m,
+		Binding: &bridgedesc.Binding{HTTPMethod: "GET", Pattern: "/b", RequestBodyPath: "*"}}, nil
+}
+
+func (r bidiRouter) RouteGRPC(context.Context) (grpcadapter.ClientConn, routing.GRPCRoute, error) {
+	return echoConn{}, routing.GRPCRoute{Target: r.t, Service: &r.t.Services[0], Method: bridgedesc.DummyMethod("t.S", "B")}, nil
+}
+
+// echoConn's streams swallow requests and end when the client half-closes or the context ends.
+type echoConn struct{}
+
+func (echoConn) Close() {}
+func (echoConn) Stream(ctx context.Context, method string) (grpcadapter.ClientStream, error) {
+	return &echoStream{closed: make(chan struct{})}, nil
+}
+
+type echoStream struct {
+	closed chan struct{}
+	once   sync.Once
+}
+
+func (s *echoStream) Send(context.Context, proto.Message) error { return nil }
+func (s *echoStream) Recv(ctx context.Context, m proto.Message) error {
+	select {
+	case <-s.closed:
+		return io.EOF
+	case <-ctx.Done():
+		return ctx.Err()
+	}
+}
+func (s *echoStream) Header() metadata.MD  { return nil }
+func (s *echoStream) Trailer() metadata.MD { return nil }
+func (s *echoStream) CloseSend()           { s.once.Do(func() { close(s.closed) }) }
+func (s *echoStream) Close()               { s.once.Do(func() { close(s.closed) }) }
+
+func wsBurst(grpcws bool) {
+	rt := bidiRouter{unaryTarget("t")}
+	var h http.Handler
+	if grpcws {
+		h = webbridge.NewGRPCWebSocketBridge(rt, webbridge.GRPCWebBridgeOpts{Logger: bridgelog.Discard()})
+	} else {
+		h = webbridge.NewTranscodedWebSocketBridge(rt, webbridge.TranscodedWebSocketBridgeOpts{})
+	}
+	srv := httptest.NewServer(h)
+	defer srv.Close()
+	for round := 0; round < 3; round++ {
+		var bc *burstConn
+		d := websocket.Dialer{NetDial: func(network, addr string) (net.Conn, error) {
+			c, err := net.Dial(network, addr)
+			if err != nil {
+				return nil, err
+			}
+			bc = &burstConn{Conn: c}
+			return bc, nil
+		}}
+		if grpcws {
+			d.Subprotocols = []string{"grpc-websockets"}
+		}
+		c, _, err := d.Dial("ws"+strings.TrimPrefix(srv.URL, "http")+"/b", nil)
+		if err != nil {
+			return
+		}
+		bc.mu.Lock()
+		bc.hold = true
+		bc.mu.Unlock()
+		if grpcws {
+			_ = c.WriteMessage(websocket.BinaryMessage, []byte("x-a: b\r\n"))
+		}
+		for i := 0; i < 24; i++ {
+			payload := fmt.Sprintf(`{"k%d":"%s"}`, i, strings.Repeat(string(rune('a'+i%26)), 3000))
+			if grpcws {
+				pb, _ := proto.Marshal(&emptypb.Empty{})
+				_ = pb
+				body := append([]byte{0, 0, 0, 0, 0, 0}, []byte(strings.Repeat(string(rune(8+i%100)), 3000))...)
+				_ = c.WriteMessage(websocket.BinaryMessage, body)
+			} else {
+				_ = c.WriteMessage(websocket.TextMessage, []byte(payload))
+			}
+		}
+		bc.release()
+		time.Sleep(150 * time.Millisecond)
+		_ = c.WriteMessage(websocket.CloseMessage, websocket.FormatCloseMessage(1000, ""))
+		_ = c.SetReadDeadline(time.Now().Add(2 * time.Second))
+		for {
+			if _, _, err := c.ReadMessage(); err != nil {
+				break
+			}
+		}
+		c.Close()
+	}
+	time.Sleep(100 * time.Millisecond)
 }
 
 // ---------- fakes ----------
